@@ -230,6 +230,38 @@ theorem apply_state_fixpoint (run : Kind → View σ → A → U → Except Stri
 theorem applyLocation_state (runLoc : Kind → View σ → A → U → Except String O) (k : Kind) (i : Inst σ) (a : A) (u : U) :
     (applyLocation runLoc k i a u).1 = i := rfl
 
+private theorem normOdd_facts (n : Int) : Model.Windows.normOdd n % 2 = 1 ∧ n ≤ Model.Windows.normOdd n ∧
+    Model.Windows.normOdd (Model.Windows.normOdd n) = Model.Windows.normOdd n := by
+  unfold Model.Windows.normOdd
+  split <;> (refine ⟨by omega, by omega, ?_⟩; first | rfl | (split <;> omega))
+
+/-- **window_normalised_at_construction.**  The (length, step) a window object carries after construction (what the
+    FIRST run reads) is already the normalised pair: both odd, `0 < step ≤ length`, and a fixed point of the
+    construction — normalising again at the time of use would change nothing.  Together with `applyLocation_state`
+    (no call changes a derived attribute) the first `apply_location` and every later one read the same window, for
+    every setting incl. the even ones the constructor increases by one. -/
+theorem window_normalised_at_construction (L S : Int) (w : Int × Int) (h : mkWindow L S = .ok w) :
+    w.1 % 2 = 1 ∧ w.2 % 2 = 1 ∧ 0 < w.2 ∧ w.2 ≤ w.1 ∧ mkWindow w.1 w.2 = .ok w := by
+  obtain ⟨a, b⟩ := w
+  unfold mkWindow Model.Windows.postInit at h
+  have hL := normOdd_facts L
+  have hS := normOdd_facts S
+  split at h
+  · cases h
+  · split at h
+    · cases h
+    · simp only [Except.ok.injEq, Prod.mk.injEq] at h
+      obtain ⟨rfl, rfl⟩ := h
+      refine ⟨hL.1, hS.1, by omega, by omega, ?_⟩
+      unfold mkWindow Model.Windows.postInit
+      rw [hL.2.2, hS.2.2]
+      split
+      · omega
+      · first | rfl | (split <;> first | omega | rfl)
+
+/-- the hypothesis is satisfiable by an even (length, step): `RunningWindowOverYears(18, 10)` carries `(19, 11)` -/
+example : mkWindow 18 10 = .ok (19, 11) := by rfl
+
 theorem runSeq_state (run runLoc : Kind → View σ → A → U → Except String O) (k : Kind) (i : Inst σ) (calls : List (Call A U)) :
     runSeq run runLoc k i calls = i ∨ runSeq run runLoc k i calls = (derive k i).1 := by
   induction calls generalizing i with
